@@ -25,7 +25,8 @@ ASSUMPTIONS = ['vt.refsem truth tables; vt.wf; equivalence of a replacement is j
 REQUIRED = {'mon:rename_gate.checked': 200, 'mon:replace_inputs.checked': 100, 'mon:replace_subcircuit.checked': 60,
             'mon:remove_gate.checked': 100, 'replace:accepted': 40, 'replace:documented_error': 10,
             'replace:different_structure': 15, 'remove:refused_used_gate': 30, 'remove:output_gate': 20,
-            'rename:dup_operand_user': 10, 'rename:block_member': 10, 'history_circuit': 100}
+            'rename:dup_operand_user': 10, 'rename:block_member': 10, 'history_circuit': 100, 'mon:remove_block.checked': 30,
+            'remove_block:refused_used_members': 30}
 
 CUR = {'ctx': None, 'case': None}
 
@@ -405,9 +406,53 @@ def raise_remove(st, args, kwargs, exc):
         ctx.count('remove:refused_used_gate')
 
 
+@monitor.outer_only
+def pre_remove_block(args, kwargs):
+    c = args[0]
+    name = args[1] if len(args) > 1 else kwargs['block_label']
+    try:
+        members = list(c.blocks[name].gates)
+    except Exception:
+        return None
+    net = refsem.net_of(c)
+    outside = {}
+    for l, (t, ops) in net.gates.items():
+        if l in members:
+            continue
+        for o in ops:
+            if o in members:
+                outside.setdefault(o, []).append(l)
+    return {'members': members, 'outside': outside, 'clean': _clean(c)}
+
+
+@monitor.outer_only
+def post_remove_block(st, args, kwargs, result):
+    c = args[0]
+    ctx = CUR['ctx']
+    if st is None:
+        return
+    ctx.mon('remove_block')
+    if st['outside']:
+        ctx.violation('Circuit.remove_block', 'wrong_result', 'removed_used_gate',
+                      'block removed although its members are read from outside the block: %r' % (dict(list(st['outside'].items())[:3]),),
+                      CUR['case'])
+        return
+    if st['clean']:
+        with monitor.suspended():
+            errs = wf.errors(c)
+        if errs:
+            ctx.violation('Circuit.remove_block', 'invariant', 'not_wf', '; '.join(errs[:3]), CUR['case'])
+
+
+def raise_remove_block(st, args, kwargs, exc):
+    if st is not None and st['outside']:
+        CUR['ctx'].count('remove_block:refused_used_members')
+
+
 def install(ctx):
     from cirbo.core.circuit import Circuit
     CUR['ctx'] = ctx
+    monitor.attach(Circuit, 'remove_block', pre=pre_remove_block, post=post_remove_block, on_raise=raise_remove_block)
     monitor.attach(Circuit, 'rename_gate', pre=pre_rename, post=post_rename, on_raise=raise_rename)
     monitor.attach(Circuit, 'replace_inputs', pre=pre_replace_inputs, post=post_replace_inputs)
     monitor.attach(Circuit, 'replace_subcircuit', pre=pre_replace_sub, post=post_replace_sub, on_raise=raise_replace_sub)
@@ -611,6 +656,23 @@ def check_case(case, ctx):
         c4.remove_gate('__missing__')
     except Exception:
         pass
+    # ---- remove_block: gates leave the circuit block-wise; the same "only what nobody uses" applies
+    c5 = _build(net, case, rng)
+    inner5 = [l for l in net.gates if net.gates[l][0] != 'INPUT']
+    if inner5:
+        for bi in range(rng.randint(1, 3)):
+            try:
+                with monitor.suspended():
+                    gs5 = rng.sample(inner5, rng.randint(1, min(3, len(inner5))))
+                    if 'rb%d' % bi not in c5.blocks and all(c5.has_gate(g) for g in gs5):
+                        c5.make_block('rb%d' % bi, gs5, gs5[:1])
+                    else:
+                        continue
+                c5.remove_block('rb%d' % bi)
+                out5 = 'removed'
+            except Exception as e:
+                out5 = type(e).__name__
+            ctx.case('%s:remove_block:%r' % (sh, gs5), True, cls='op:remove_block/' + out5)
 
 
 def _make_replacement(sub, sins, souts, kind, rng, k):
